@@ -154,10 +154,10 @@ mod verif_c03_load {
         type Loader = L;
         fn default_value(_id: &SharedString, error: BoxedError) -> Result<Self, BoxedError> { std::mem::forget(error); Ok(D0(0xD0)) }
     }
-    // @h name=c03_load_ext0_default tier=quick timeout=300
+    // @h name=c03_load_noext_default tier=quick timeout=300
     #[kani::proof]
     #[kani::unwind(5)]
-    fn c03_load_ext0_default() {
+    fn c03_load_noext_default() {
         let mem = Mem::empty();
         let id = SharedString::from("a");
         let r = load_from_source::<D0>(&mem, &id);
